@@ -9,6 +9,7 @@ import (
 	"go/types"
 	"math"
 	"slices"
+	"strconv"
 	"strings"
 
 	"golang.org/x/tools/go/ssa"
@@ -407,6 +408,9 @@ func (fr *Frame) run() {
 			if e.steps > e.maxSteps {
 				panic(abortf("steps", "step bound %d exceeded", e.maxSteps))
 			}
+			if e.steps&0xffff == 0 && e.steps > 2000000 && memPressure.Load() {
+				panic(abortf("steps", "engine heap above its budget while this path had run %d steps", e.steps))
+			}
 			e.curInstr = instr
 			e.curFn = fr.fn
 			if e.trace {
@@ -772,7 +776,8 @@ func (e *Exec) unop(instr *ssa.UnOp, x Value) Value {
 		return e.ctx.BNot(x.(*Term))
 	case token.SUB:
 		if b, ok := underBasic(instr.X.Type()); ok && isFloatBasic(b) {
-			e.unsupported("float negation")
+			xt := x.(*Term) // IEEE negation flips the sign bit (NaN included)
+			return e.ctx.Bin(OXor, xt, e.ctx.Const(xt.w, uint64(1)<<uint(xt.w-1)))
 		}
 		return e.ctx.Neg(x.(*Term))
 	case token.XOR:
@@ -791,10 +796,31 @@ func (e *Exec) binop(op token.Token, t types.Type, x, y Value) Value {
 			e.unsupported("binop operand %T", y)
 		}
 		b, _ := underBasic(t)
-		if b != nil && isFloatBasic(b) {
+		if b != nil && isFloatBasic(b) && xv.w > 0 {
+			// IEEE-754 semantics through the solver's FloatingPoint theory (fp.go); bit equality
+			// is not float equality (NaN, +-0)
+			fw := strconv.Itoa(xv.w)
 			switch op {
-			case token.EQL, token.NEQ:
-				// bit equality is not float equality (NaN, ±0); unsupported
+			case token.EQL:
+				return c.FP("eq"+fw, 0, xv, yv)
+			case token.NEQ:
+				return c.BNot(c.FP("eq"+fw, 0, xv, yv))
+			case token.LSS:
+				return c.FP("lt"+fw, 0, xv, yv)
+			case token.LEQ:
+				return c.FP("le"+fw, 0, xv, yv)
+			case token.GTR:
+				return c.FP("lt"+fw, 0, yv, xv)
+			case token.GEQ:
+				return c.FP("le"+fw, 0, yv, xv)
+			case token.ADD:
+				return c.FP("add"+fw, xv.w, xv, yv)
+			case token.SUB:
+				return c.FP("sub"+fw, xv.w, xv, yv)
+			case token.MUL:
+				return c.FP("mul"+fw, xv.w, xv, yv)
+			case token.QUO:
+				return c.FP("div"+fw, xv.w, xv, yv)
 			}
 			e.unsupported("floating-point operation %v", op)
 		}
@@ -1135,15 +1161,15 @@ func (e *Exec) conv(dst, src types.Type, x Value) Value {
 					if xt.IsConst() {
 						return c.Const(64, math.Float64bits(float64(math.Float32frombits(uint32(xt.c)))))
 					}
-					return c.UF("f32to64", 64, xt)
+					return c.FP("f32to64", 64, xt)
 				}
-				if xt.op == OUF && xt.name == "f32to64" {
+				if xt.op == OFP && xt.name == "f32to64" {
 					return xt.a[0]
 				}
 				if xt.IsConst() {
 					return c.Const(32, uint64(math.Float32bits(float32(math.Float64frombits(xt.c)))))
 				}
-				return c.UF("f64to32", 32, xt)
+				return c.FP("f64to32", 32, xt)
 			}
 			if xt.IsConst() && isFloatBasic(ud) {
 				var f float64
@@ -1157,7 +1183,22 @@ func (e *Exec) conv(dst, src types.Type, x Value) Value {
 				}
 				return c.Const(64, math.Float64bits(f))
 			}
-			e.unsupported("int/float conversion of symbolic value")
+			if isFloatBasic(ud) { // integer -> float, round to nearest even
+				if xt.w == 0 {
+					e.unsupported("bool to float conversion")
+				}
+				nm := "fromui"
+				if isSignedBasic(sb) {
+					nm = "fromsi"
+				}
+				return c.FP(fmt.Sprintf("%s%d_%d", nm, xt.w, dw), dw, xt)
+			}
+			// float -> integer, truncation toward zero (out of range: see fp.go)
+			nm := "toui"
+			if isSignedBasic(ud) {
+				nm = "tosi"
+			}
+			return c.FP(fmt.Sprintf("%s%d_%d", nm, xt.w, dw), dw, xt)
 		}
 		if xt.w == 0 || dw == 0 {
 			return xt
